@@ -657,6 +657,21 @@ class QsModel:
                     held = [j.tag() for j in self.jobs.values() if j.state == "h" and j.holder == cid]
                     self._fail("I-zombie", f"connection {cid} was closed by its client but the server never ended it"
                                + (f"; it still 'holds' {held}" if held else ""), conn=cid)
+        if self.sim is not None:
+            # the server serves: it does not hang up on a client that neither closed nor reset its
+            # connection, and a request that does not have to wait for anything is answered.  (Without
+            # this every other rule holds vacuously for a server that answers nobody.)
+            for cid, sock in self.sim.socks.items():
+                if sock.epoch != self.sim.epoch or sock.eof_sent or sock.broken:
+                    continue
+                g = sock.greenlet
+                if cid in self.dead or (g is not None and g.dead):
+                    self._fail("X-dead", f"the server ended connection {cid} although its client neither closed nor "
+                               f"reset it" + (f" (request {sock.outstanding[0][0]} unanswered)" if sock.outstanding else ""),
+                               conn=cid)
+                if sock.outstanding and cid not in self.pulls and cid not in self.waits:
+                    self._fail("X-dead", f"request {sock.outstanding[0][0]} on connection {cid} is never answered "
+                               f"although it does not have to wait for anything", conn=cid)
         for conn, js in self.waits.items():
             if all(j.state == "d" for j in js):
                 self._fail("R-wait", f"{conn} still waits although {[j.tag() for j in js]} are all finished",
